@@ -78,7 +78,9 @@ Definition is_special_inf_nan (s : str) : bool :=
 
 Definition has_us (s : str) : bool := existsb is_us s.
 
-Definition is_ambiguous (s : str) : bool :=
+(* judged as the reader will see the text: with Unicode white space trimmed *)
+Definition is_ambiguous (s0 : str) : bool :=
+  let s := trim s0 in
   match s with
   | [] => true
   | _ => str_eqb s [126] || eqi s S_NULL || eqi s S_TRUE || eqi s S_FALSE
@@ -86,10 +88,11 @@ Definition is_ambiguous (s : str) : bool :=
          || (has_us s && is_numeric_looking (filter (fun c => negb (is_us c)) s))
   end.
 
-Definition is_ambiguous_value (s : str) (yaml_12 : bool) : bool :=
-  is_ambiguous s
-  || (negb yaml_12 && match parse_yaml11_bool s with Some _ => true | None => false end)
-  || (let u := strip_sign s in eqi u S_NAN || eqi u S_INF || eqi u S_INFINITY).
+Definition is_ambiguous_value (s0 : str) (yaml_12 : bool) : bool :=
+  is_ambiguous s0
+  || (let s := trim s0 in
+      (negb yaml_12 && match parse_yaml11_bool s with Some _ => true | None => false end)
+      || (let u := strip_sign s in eqi u S_NAN || eqi u S_INF || eqi u S_INFINITY)).
 
 (* u8::is_ascii_whitespace on the first byte of a character *)
 Definition ascii_ws_byte (c : N) : bool := (c =? 32) || (c =? 9) || (c =? 10) || (c =? 12) || (c =? 13).
@@ -116,6 +119,7 @@ Fixpoint contains_sub (sub s : str) : bool :=
   starts_with sub s || match s with [] => false | _ :: r => contains_sub sub r end.
 
 Definition ends_with_c (c : N) (s : str) : bool := match rev s with x :: _ => x =? c | [] => false end.
+Definition ends_with_sub (suffix s : str) : bool := starts_with (rev suffix) (rev s).
 
 (* a string that would be read back as a document marker, or contains a BOM *)
 Definition marker_or_edge_unsafe (s : str) : bool :=
@@ -136,7 +140,7 @@ Definition is_plain_value_safe (s : str) (yaml_12 in_flow : bool) : bool :=
   negb (is_ambiguous_value s yaml_12) && negb (marker_or_edge_unsafe s)
   && leading_ok s
   && negb (contains_sub [58; 32] s) && negb (ends_with_c 58 (trim s))
-  && (if in_flow then negb (contains_any_or_control s [44; 91; 93; 123; 125; 35])
+  && (if in_flow then negb (ends_with_sub [32; 45] s) && negb (contains_any_or_control s [44; 91; 93; 123; 125; 35])
       else negb (contains_any_or_control s [35])).
 
 Definition needs_double_quotes (s : str) : bool :=
